@@ -20,6 +20,20 @@ def _strip_intents(x):
     return x
 
 
+EXTRA_ENV = {}      # set (per worker, for the duration of a shard) by checks that re-run a part of their workload under a hostile value of every
+                    # environment variable the ambient-read monitor saw the phases ask for
+
+
+def env_reads(lay, runs):
+    """ambient-read monitor for the phase executables: runs = [(name, args, env, script)]; -> names asked for that are neither runtime /
+    locale variables nor documented inputs"""
+    log = os.path.join(lay.root, "envreads.log")
+    for name, args, env, script in runs:
+        lay.run(name, args, env, script, extra_env={"LD_PRELOAD": vp.build_envshim(), "VP_ENVSHIM_LOG": log})
+    names = [l.strip() for l in open(log, errors="replace")] if os.path.exists(log) else []
+    return vp.filter_env_reads(names)
+
+
 class Layout:
     def __init__(self, root, exe="vpbp"):
         self.root = root
@@ -53,6 +67,7 @@ class Layout:
             json.dump(_strip_intents(script), f, allow_nan=False)
         e = dict(vp.hostile_env())      # (CI variables, a stale $PWD, stale CNB_* path variables of an outer run, ...: none of them is an input)
         e.update({"PATH": "/usr/bin:/bin", "VPBP_SCRIPT": self.script})
+        e.update(EXTRA_ENV)
         e.update(env)
         if extra_env:
             e.update(extra_env)
